@@ -30,6 +30,9 @@ pub struct Gz {
     pub cuts: Vec<usize>,
     /// move every cut to the nearest record start at or before it
     pub snap: bool,
+    /// append an empty member (what bgzip writes as its end-of-file marker)
+    #[serde(default)]
+    pub empty_tail: bool,
     /// 0 = stored blocks, 1..9 = deflate level
     pub level: u32,
 }
@@ -318,6 +321,9 @@ pub fn render_text(records: &[Rec], c: &Container) -> (Vec<u8>, Vec<usize>) {
         starts.push(out.len());
         let header = if r.desc.is_empty() {
             r.id.clone()
+        } else if r.desc.starts_with('\t') {
+            // description separated by a TAB
+            format!("{}{}", r.id, r.desc)
         } else {
             format!("{} {}", r.id, r.desc)
         };
@@ -394,6 +400,10 @@ pub fn render_bytes(records: &[Rec], c: &Container) -> Vec<u8> {
                 enc.write_all(&text[prev..cut]).unwrap();
                 out.extend_from_slice(&enc.finish().unwrap());
                 prev = cut;
+            }
+            if gz.empty_tail {
+                let enc = flate2::write::GzEncoder::new(Vec::new(), flate2::Compression::new(gz.level));
+                out.extend_from_slice(&enc.finish().unwrap());
             }
             out
         }
